@@ -68,8 +68,8 @@ func c10Scenarios(tier string) []e1lib.Scenario {
 				continue // quick: at par 3 only sorted inputs of length 3 (the monoids are commutative; thorough runs all)
 			}
 			for _, mo := range []string{"sum", "product", "max", "min", "and", "or"} {
-				for _, ic := range []int{0, len(in)} {
-					if ic == 0 && len(in) == 0 {
+				for ici, ic := range []int{0, len(in)} {
+					if ici == 1 && len(in) == 0 { // capacity 0 twice: the empty input is run once
 						continue
 					}
 					input := in
@@ -107,8 +107,8 @@ func c10Scenarios(tier string) []e1lib.Scenario {
 	for _, par := range []int{5, 9, 17, 33, 65} {
 		for _, in := range [][]int{{}, {2, 3}, {1, 2, 3, 1, 2, 3, 1}} {
 			for _, mo := range []string{"sum", "product"} {
-				for _, ic := range []int{0, len(in)} {
-					if ic == 0 && len(in) == 0 {
+				for ici, ic := range []int{0, len(in)} {
+					if ici == 1 && len(in) == 0 { // capacity 0 twice: the empty input is run once
 						continue
 					}
 					input := in
